@@ -60,13 +60,15 @@ structure Occ where
 deriving DecidableEq, Repr
 
 /-- a `Name`/`Attribute` chain: its base identifier and dotted name -/
-def chainOcc : Expr → Option (String × String)
-  | .name id => some (id, id)
-  | .attr v a => (chainOcc v).map (fun p => (p.1, p.2 ++ "." ++ a))
-  | _ => none
+abbrev chainOcc : Expr → Option (String × String) := chain
+
+/-- the occurrences whose base is not one of the names `b` -/
+def freeOf (b : List String) (os : List Occ) : List Occ := os.filter (fun o => !b.contains o.base)
 
 mutual
-/-- every `Name` node of the expression exactly once, with its chain (depth first) -/
+/-- every FREE `Name` node of the expression exactly once, with its chain (depth first): a `lambda`
+removes the occurrences of its parameters from its body, a comprehension those of its targets from
+everything but its first iterable -/
 def occs : Expr → List Occ
   | .name id => [⟨id, id, false⟩]
   | .const _ => []
@@ -82,12 +84,18 @@ def occs : Expr → List Occ
   | .binop _ l r => occs l ++ occs r
   | .subscript v i => occs v ++ occs i
   | .seq _ es => occsList es
+  | .lambda ps ds body => occsList ds ++ freeOf ps (occs body)
+  | .comp _ elts gens => freeOf (gensTargets gens) (occsList elts) ++ occsGens (gensTargets gens) true gens
 def occsList : List Expr → List Occ
   | [] => []
   | e :: es => occs e ++ occsList es
 def occsKws : List (String × Expr) → List Occ
   | [] => []
   | k :: ks => occs k.2 ++ occsKws ks
+def occsGens (T : List String) : Bool → List Gen → List Occ
+  | _, [] => []
+  | first, .mk _ it ifs :: gs =>
+    (if first then occs it else freeOf T (occs it)) ++ freeOf T (occsList ifs) ++ occsGens T false gs
 end
 
 /-- the variable `_get_ast_node_variables` appends for an occurrence -/
@@ -105,6 +113,15 @@ def factorReads (f : PFactor) : List String :=
   | .python none => []
   | .python (some c) => (freeNames c.ast).map (unalias c.aliases)
 
+/-- the keys a factor reads in STRICT position (`Model.Variables.strictNames`): removing one of them
+makes the evaluation fail whatever the operations do -/
+def factorStrictReads (f : PFactor) : List String :=
+  match f.kind with
+  | .lookup => [f.expr]
+  | .literal => []
+  | .python none => []
+  | .python (some c) => (strictNames c.ast).map (unalias c.aliases)
+
 /-- the data columns the formula reads -/
 def usedColumns (L : Layers ν) (fs : List PFactor) : List String :=
   (fs.flatMap factorReads).filter (fun k => (dataKeys L).contains k)
@@ -119,6 +136,10 @@ structure AliasOK (L : Layers ν) (c : PyCode) : Prop where
   fresh : ∀ a ∈ c.aliases, a.1 ≠ a.2 →
     lookupAll L a.1 = none ∧ L.builtins.lookup a.2 = none ∧ ∀ b ∈ c.aliases, b.2 ≠ a.1
   chains : ∀ o ∈ occs c.ast, o.chain ≠ o.base → c.aliases.lookup o.chain = none
+  /-- (not part of the sanitiser's contract) no layer binds a name `stateful_eval` reserves for
+  itself and no sanitised name is one: otherwise every Python factor is rejected with a
+  `RuntimeError` (`Props.C17.reserved_names_rejected`) -/
+  noReserved : ∀ r ∈ Gen.reservedNames, valueOf L r = none ∧ c.aliases.lookup r = none
 
 def FactorOK (L : Layers ν) (f : PFactor) : Prop :=
   match f.kind with
@@ -166,5 +187,44 @@ structure OpsTotal (ops : Ops ν) : Prop where
   unop : ∀ o v, ∃ r, ops.unop o v = .ok r
   binop : ∀ o l r, ∃ x, ops.binop o l r = .ok x
   subscript : ∀ v i, ∃ r, ops.subscript v i = .ok r
+  iter : ∀ v, ∃ r, ops.iter v = .ok r
+  truth : ∀ v, ∃ r, ops.truth v = .ok r
+  unpack : ∀ n v, ∃ r, ops.unpack n v = .ok r ∧ r.length = n
+
+mutual
+/-- the expression has no binding construct (no `lambda`, no comprehension): the strict fragment -/
+def noBinders : Expr → Bool
+  | .name _ => true
+  | .const _ => true
+  | .attr v _ => noBinders v
+  | .call f args kws => noBinders f && noBindersList args && noBindersKws kws
+  | .unop _ x => noBinders x
+  | .binop _ l r => noBinders l && noBinders r
+  | .subscript v i => noBinders v && noBinders i
+  | .seq _ es => noBindersList es
+  | .lambda _ _ _ => false
+  | .comp _ _ _ => false
+def noBindersList : List Expr → Bool
+  | [] => true
+  | e :: es => noBinders e && noBindersList es
+def noBindersKws : List (String × Expr) → Bool
+  | [] => true
+  | k :: ks => noBinders k.2 && noBindersKws ks
+end
+
+/-- the Python code of the factor (if any) is in the strict fragment -/
+def FactorStrict (f : PFactor) : Prop :=
+  match f.kind with
+  | .python (some c) => noBinders c.ast = true
+  | _ => True
+
+/-- if `v` is read at all it is (also) read in strict position: it is not mentioned ONLY inside
+lambda bodies or inside comprehensions apart from their first iterable -/
+def NotOnlyLazy (fs : List PFactor) (v : String) : Prop :=
+  v ∈ fs.flatMap factorReads → v ∈ fs.flatMap factorStrictReads
+
+/-- `v` is read in strict position by some factor (it is not only mentioned inside a lambda body or
+inside a comprehension: such a read need not happen) -/
+def StrictRead (fs : List PFactor) (v : String) : Prop := v ∈ fs.flatMap factorStrictReads
 
 end FormulaicVerif.Spec.Variables
